@@ -18,24 +18,34 @@ pub enum Mode {
 pub enum Item {
     Core(Prog),
     Poly(crate::poly::Cmp),
+    /// a runnable fixture of the repository (lib/tests/**), analysed in place so that its imports resolve
+    File(std::path::PathBuf),
 }
 impl Item {
     fn text(&self) -> String {
         match self {
             | Item::Core(p) => crate::print::program(&p.body, &p.root, &Cfg::default()).0,
             | Item::Poly(c) => crate::poly::program(c, false),
+            | Item::File(p) => std::fs::read_to_string(p).unwrap_or_default(),
+        }
+    }
+    fn path(&self) -> Option<&std::path::Path> {
+        match self {
+            | Item::File(p) => Some(p.as_path()),
+            | _ => None,
         }
     }
     fn stdin(&self) -> &'static [u8] {
         match self {
             | Item::Core(p) => p.stdin,
-            | Item::Poly(_) => b"",
+            | Item::Poly(_) | Item::File(_) => b"",
         }
     }
     fn origin(&self) -> String {
         match self {
             | Item::Core(p) => p.origin.to_string(),
             | Item::Poly(_) => "polymorphism".into(),
+            | Item::File(p) => format!("repository fixture {}", p.display()),
         }
     }
 }
@@ -51,6 +61,14 @@ impl Lowered {
     pub fn new(mode: Mode, tier: Tier) -> Self {
         let mut progs: Vec<Item> = universe(tier).into_iter().map(Item::Core).collect();
         progs.extend(crate::poly::universe(tier).into_iter().map(Item::Poly));
+        // the repository's own runnable fixtures (std-library style programs: packages, named products,
+        // telescopes, effects), except the ones that must fail
+        for p in crate::corpus::repo_sources() {
+            let s = p.display().to_string();
+            if s.contains("/lib/tests/") && !s.contains("/fail/") && !s.contains("/warn/") && !s.ends_with(".zyi") {
+                progs.push(Item::File(p));
+            }
+        }
         Lowered { mode, progs, chunk: 16, scratch: None }
     }
 }
@@ -286,8 +304,8 @@ impl Check for Lowered {
     }
     fn rule(&self) -> String {
         match self.mode {
-            | Mode::Lowering => format!("every accepted program of the universe and of the System-F / F-omega universe ({} programs; Ret-rooted through RootLowerer, executable-rooted through BuiltinRootLowerer): stack-IR lowering, closure conversion, assembly lowering, render_sps_low, render_assembly, emit_amd64 (ELF + Mach-O), emit_llvm (4 triples) each under catch_unwind; independent re-validation in the harness: SPSLow root closed, every block's free variables within its own label, labels unique, stack lets only around coproduct matches, comatch tags unique, product layouts positive with items <= arity and one class per field, every extern in the builtin table with the role's arity; emitted AMD64 text defines no label twice; non-trivial = programs that lowered and contain >= 1 closure package and >= 1 continuation package", self.progs.len()),
-            | Mode::Preservation => format!("every accepted program of the universe and of the System-F / F-omega universe that lowers ({} candidate programs) is run on the harness's SPSLow reference machine (layout-aware flat products, blocks closed over their own label, host operations = the repository's implementations) and on zydeco_dynamics::Runtime with the same stdin; output bytes and final result must agree; a stuck SPSLow state (unbound variable in a block, tag not found, layout/arity mismatch, non-package at open) is a violation; non-trivial = programs whose both runs terminate within fuel", self.progs.len()),
+            | Mode::Lowering => format!("every accepted program of the universe, of the System-F / F-omega universe and every runnable repository fixture under lib/tests (except fail/ and warn/) ({} programs; Ret-rooted through RootLowerer, executable-rooted through BuiltinRootLowerer): stack-IR lowering, closure conversion, assembly lowering, render_sps_low, render_assembly, emit_amd64 (ELF + Mach-O), emit_llvm (4 triples) each under catch_unwind; independent re-validation in the harness: SPSLow root closed, every block's free variables within its own label, labels unique, stack lets only around coproduct matches, comatch tags unique, product layouts positive with items <= arity and one class per field, every extern in the builtin table with the role's arity; emitted AMD64 text defines no label twice; non-trivial = programs that lowered and contain >= 1 closure package and >= 1 continuation package", self.progs.len()),
+            | Mode::Preservation => format!("every accepted program of the universe, of the System-F / F-omega universe and every runnable repository fixture under lib/tests that lowers ({} candidate programs) is run on the harness's SPSLow reference machine (layout-aware flat products, blocks closed over their own label, host operations = the repository's implementations) and on zydeco_dynamics::Runtime with the same stdin; output bytes and final result must agree; a stuck SPSLow state (unbound variable in a block, tag not found, layout/arity mismatch, non-package at open) is a violation; non-trivial = programs whose both runs terminate within fuel", self.progs.len()),
         }
     }
     fn timeout(&self) -> std::time::Duration {
@@ -301,7 +319,10 @@ impl Check for Lowered {
         let mut nontrivial = 0u64;
         for prog in &self.progs[a..b] {
             let text = prog.text();
-            let path = scratch.write("main.zydeco", &text);
+            let path = match prog.path() {
+                | Some(p) => p.to_path_buf(),
+                | None => scratch.write("main.zydeco", &text),
+            };
             let subject = match guarded(|| Subject::analyze(&path)) {
                 | Ok(s) => s,
                 | Err(_) => continue,
